@@ -5,6 +5,7 @@ import NmVerif.NN.Conv2dLemmas
 import NmVerif.NN.ComposeLemmas
 import NmVerif.NN.LinearLemmas
 import NmVerif.NN.LinearTensordot
+import NmVerif.NN.NormLemmas
 /-
   C17 — neural-network routines equal their reference (PyTorch) definitions.
 
@@ -348,6 +349,72 @@ example :
     let w : Arr Int := ⟨[2, 3], fun d => match d with | [a, b] => (3 * a + b + 1 : Nat) | _ => 0⟩
     let b : Arr Int := ⟨[2], fun d => match d with | [a] => (10 * (a + 1) : Nat) | _ => 0⟩
     (linear (· + ·) (· * ·) x w (some b)).map (fun v => (v.shape, v.get [1, 0])) = some ([2, 2], some 42) := by decide
+
+/-! ## normalisations -/
+
+open NmVerif.Reduce in
+/-- **layer_norm: which elements enter the mean and the variance, and what is done with them.**  Input `lead ++ ns`
+    of any rank, weight and bias of shape `ns` (the normalised trailing axes, any number of them), abstract element
+    operations.  The `view::layer_norm` composition (`mean` and `var` over the axes `−k .. −1` with keepdims, both
+    broadcast back, `sqrt(var + eps)`, divide, weight, bias) exists, keeps the shape, and the element at `p ++ q` is
+    `((x[p,q] − μ) / sqrt(V/n + eps)) · w[q] + b[q]` where the statistics are taken over exactly the `n = ∏ ns` elements
+    `x[p, r]`, `r` running over all of `ns` in row-major order: `μ = (Σ x[p,r]) / n`, `V = Σ |x[p,r] − μ|²`
+    (`normAt`).  Every element is defined. -/
+theorem layer_norm_eq_def {α : Type} (add sub mul div : α → α → α) (sqabs sqrt : α → α) (divn : α → Nat → α) (eps : α)
+    (x w b : Arr α) (lead ns : Shape) (hx : x.shape = lead ++ ns) (hw : w.shape = ns) (hb : b.shape = ns)
+    (hp : Pos (lead ++ ns)) :
+    ∃ v, layerNorm add sub mul div sqabs sqrt divn eps x w b = some v ∧ v.shape = lead ++ ns ∧
+      ∀ p q, InShape p lead → InShape q ns →
+        (v.get (p ++ q) = (normAt add sub div sqabs sqrt divn eps x.get ((allIdx ns).map (p ++ ·)) (p ++ q)).map
+          fun y => add (mul y (w.get q)) (b.get q)) ∧
+        ∃ y, v.get (p ++ q) = some y := by
+  have hlen : x.shape.length = lead.length + ns.length := by rw [hx]; simp
+  have hpx : Pos x.shape := by rw [hx]; exact hp
+  have hva : ValidAxes x.shape.length (some (trailingAxes w.shape.length)) := by
+    rw [hlen, hw]; exact validAxes_trailing _ _
+  obtain ⟨nrm, hn1, hn2, hn3⟩ := normCore_spec add sub div sqabs sqrt divn eps x (trailingAxes w.shape.length) hpx hva
+  have hdrop : (lead ++ ns).drop lead.length = ns := List.drop_left
+  have hbr : broadcastShape2 (lead ++ ns) ns = some (lead ++ ns) := by
+    have := bshape_trailing (lead ++ ns) lead.length; rwa [hdrop] at this
+  have hpn : Pos ns := by have := pos_drop hp lead.length; rwa [hdrop] at this
+  obtain ⟨pm, hm1, hm2, hm3⟩ := bin_spec mul nrm (lift w) (lead ++ ns) (by rw [hn2]; exact hpx)
+    (by show Pos w.shape; rw [hw]; exact hpn) (by show broadcastShape2 nrm.shape w.shape = _; rw [hn2, hx, hw]; exact hbr)
+  obtain ⟨v, ha1, ha2, ha3⟩ := bin_spec add pm (lift b) (lead ++ ns) (by rw [hm2]; exact hp)
+    (by show Pos b.shape; rw [hb]; exact hpn) (by show broadcastShape2 pm.shape b.shape = _; rw [hm2, hb]; exact hbr)
+  refine ⟨v, by simp only [layerNorm, hn1, hm1, Option.bind_some]; exact ha1, ha2, fun p q hpi hq => ?_⟩
+  have hin : InShape (p ++ q) (lead ++ ns) := NN.inShape_append hpi hq
+  have hsb : specBroadcastIdx ns (p ++ q) = q := by
+    have := sbi_trailing (lead ++ ns) lead.length (p ++ q) hin
+    rw [hdrop] at this
+    rw [this, ← hpi.length_eq, List.drop_left]
+  have hG : grp x.shape (axisSet x.shape.length (some (trailingAxes w.shape.length))) (p ++ q) = (allIdx ns).map (p ++ ·) := by
+    rw [hw, grp_trailing x.shape lead.length ns.length hlen (p ++ q) (by rw [hx]; exact hin), hx,
+      blockOf_append lead ns p q hpi.length_eq]
+  have hval : v.get (p ++ q) = (normAt add sub div sqabs sqrt divn eps x.get ((allIdx ns).map (p ++ ·)) (p ++ q)).map
+      fun y => add (mul y (w.get q)) (b.get q) := by
+    rw [ha3 _ hin, hm2, sbi_self _ _ hin, hm3 _ hin, hn2, hx, sbi_self _ _ hin, hn3 _ (by rw [hx]; exact hin), hG]
+    show optOp add (optOp mul _ (some (w.get (specBroadcastIdx w.shape (p ++ q))))) (some (b.get (specBroadcastIdx b.shape (p ++ q)))) = _
+    rw [hw, hb, hsb, optOp_some_right, optOp_some_right, Option.map_map]
+    rfl
+  refine ⟨hval, ?_⟩
+  have hne : (allIdx ns).map (p ++ ·) ≠ [] := by
+    rw [← hG]; exact grp_ne_nil (by rw [hx]; exact hin)
+  obtain ⟨y, hy⟩ := normAt_defined add sub div sqabs sqrt divn eps x.get (p ++ q) hne
+  exact ⟨_, by rw [hval, hy]; rfl⟩
+
+/-- non-vacuity: input (2,2,3), normalised shape (2,3): the block of `[1] ++ [0,2]` is all six `[1, r₀, r₁]` -/
+example : Pos ([2] ++ [2, 3]) ∧ InShape [1] [2] ∧ InShape [0, 2] [2, 3] ∧
+    (allIdx [2, 3]).map ([1] ++ ·) = [[1, 0, 0], [1, 0, 1], [1, 0, 2], [1, 1, 0], [1, 1, 1], [1, 1, 2]] := by decide
+
+/-- the composition evaluated on rationals-as-pairs is heavy for the kernel; on integers with `divn = Int division`,
+    `sqrt = id`, `eps = 1`: row `[1, 2, 6]` → `μ = 3`, `V = 4+1+9 = 14`, `V/3 + 1 = 5`, `(x − 3)/5·w + b` -/
+example :
+    let x : Arr Int := ⟨[1, 3], fun d => match d with | [_, b] => [1, 2, 6].getD b 0 | _ => 0⟩
+    let w : Arr Int := ⟨[3], fun _ => 10⟩
+    let b : Arr Int := ⟨[3], fun d => match d with | [a] => (a : Int) | _ => 0⟩
+    (layerNorm (· + ·) (· - ·) (· * ·) (· / ·) (fun t => t * t) id (fun (s : Int) (n : Nat) => s / (n : Int)) 1 x w b).map
+        (fun v => (v.shape, (allIdx v.shape).map v.get))
+      = some ([1, 3], [some ((1 - 3) / 5 * 10 + 0), some ((2 - 3) / 5 * 10 + 1), some ((6 - 3) / 5 * 10 + 2)]) := by decide
 
 /-! ## convolution -/
 
